@@ -49,6 +49,8 @@ def check_roundtrip(v, c, res, prop_text='round trip'):
         v.violation('%s: missing results' % prop_text, {'kind': 'oracle', 'case': c.line()[:200000], 'meta': m})
         return False
     for k, r in enumerate(res):
+        if k < m.get('first_idx', 0):
+            continue        # an earlier round on the same objects, possibly abandoned
         if r is None or not r.startswith('ok'):
             v.violation('%s: op %d (%s) returned %s for a valid round trip' % (prop_text, k, c.ops[k][:60], r),
                         {'kind': 'oracle', 'case': c.line()[:200000], 'op_index': k, 'impl': r, 'meta': m})
